@@ -31,6 +31,7 @@ LOG_SHAPES_QUICK = [
     ['msg-untimed', 'msg-timed', 'msg-type0'],                                            # last message of type 0: saved without EOF marker
     ['msg-invalidstamp'],                                                                 # a single message
     ['msg-timed', 'msg-untimed', 'msg-unknown', 'junk'],                                  # unequal messages, junk tail
+    ['msg-unknown', 'msg-large', 'msg-timed'],                                            # a message of several KiB
     ['msg-empty', 'wrapper', 'corrupt-crc', 'msg-bigstamp', 'msg-shortpayload', 'truncated'],  # ends in a cut message
 ]
 
@@ -142,6 +143,17 @@ def histories(ctx, g, d, frames, k, nrec_full, other):
         mids += [o + n - 1, o + 24]
     for b in sorted(set(m for m in mids if 0 < m < len(d) and m not in bounds))[: (4 if ctx.thorough else 2)]:
         hs.append(('truncate-mid-message', d[:b]))
+    # fewer than 24 bytes left (size - 24 is negative: unsigned arithmetic must not wrap), and data cut below / just after
+    # the last indexed offset while the index file itself is cut
+    tiny = [1, 12, 23] if ctx.thorough else [[1, 23, 12, 22][k % 4]]
+    for b in tiny:
+        if b < len(d):
+            hs.append(('truncate-to-under-24-bytes', d[:b]))
+    if 0 <= j < len(frames):
+        o = frames[j][0]
+        for b in (o - 1, o + 10):
+            if 23 < b < len(d) and (ctx.thorough or (k + b) % 2 == 0):
+                hs.append(('truncate-around-last-indexed-offset', d[:b]))
     return hs
 
 
@@ -290,6 +302,10 @@ def run(ctx):
                          'hand transcription of FileIndex.load/save/_to_raw/_from_raw, fast_generate_index open path, MixedLogReader._read_next, held by correspondence',
                          'file system: no atomicity of the index write is assumed (every prefix of the saved file is a possible crash state)',
                          'translators/gen_fe.py, translators/gen_c09.py', 'harness/py/c09_impl.py, generators in props/c09.py and props/c18.py']
+    ctx.notes.append('checklist audit: index cut inside its first record x data cut below / just after the last indexed offset and to 1..23 bytes; type-0 message in the middle read through the saved index; '
+                     'shrink to 10 / 23 bytes - re-open - regrow to the indexed size (same and other content); max_bytes through an existing complete index in both orders (small and multi-block logs); '
+                     'two readers alive at once; save_index=False; show_progress / warn_on_gaps; get_index() compared with the fresh index; a message of several KiB. '
+                     'Not exercised: a read-only directory for the .p1i (the checks run as root, permissions are not enforced; the property text does not promise an open without write access).')
     ctx.assumptions += ['the data file changes by append / truncate / replacement by a file of different size; replacement by an unrelated file of the SAME size is outside the statement',
                         'offsets < 2^64, types < 2^16 (file bytes are bytes)', 'accepted messages <= 16 KiB (C08 precondition)']
 
@@ -327,18 +343,31 @@ def in_process_histories(ctx, model, g, logs, datas, frames0, fulls):
         ends = [o + n for o, n in fr]
         cutb = ends[len(ends) // 2 - 1] if len(ends) > 1 else fr[0][0]
         mods = [('appended-message', d + g.appended), ('appended-junk-and-message', d + g.appended + b'\x00junk.' + g.appended),
-                ('cut-to-boundary', d[:cutb]), ('cut-mid-message', d[:max(1, ends[-1] - 3)]), ('restored', d), ('emptied', b'')]
+                ('cut-to-boundary', d[:cutb]), ('cut-mid-message', d[:max(1, ends[-1] - 3)]), ('restored', d), ('emptied', b''),
+                ('shrunk-to-10-bytes', d[:10]), ('regrown-to-the-indexed-size', d), ('shrunk-to-23-bytes', d[:23]),
+                ('regrown-to-the-indexed-size-other-content', bytes(b ^ 0x5A for b in d))]
         ks = [nb, nb - REC] + ([REC] if nb > 2 * REC else [])
         for k in ks:
             for variant in range(2 if ctx.thorough or li < 3 else 1):
                 steps = [{'op': 'data', 'hex': d.hex()}, {'op': 'p1i', 'hex': full[:2 * k]}]
-                order = mods if variant == 0 else [mods[2], mods[4], mods[0], mods[5], mods[1], mods[3]]
+                order = mods if variant == 0 else [mods[2], mods[4], mods[0], mods[5], mods[1], mods[3], mods[8], mods[7], mods[6], mods[4]]
                 steps.append({'op': 'open', 'threads': 1, 'what': 'first open'})
+                if variant == 0:
+                    # a byte limit next to an existing index still applies; two readers alive at once; flags that must not matter
+                    steps.append({'op': 'open', 'threads': 1, 'max_bytes': ends[0] + (5 if len(ends) > 1 else 0), 'what': 'limited open through the existing index'})
+                    steps.append({'op': 'open2', 'threads': 1, 'what': 'two readers alive at once'})
+                    steps.append({'op': 'open', 'threads': 1, 'opts': {'show_progress': True, 'warn_on_gaps': True}, 'what': 'open with show_progress and warn_on_gaps'})
                 for nm, dd in order:
                     steps.append({'op': 'data', 'hex': dd.hex()})
                     steps.append({'op': 'open', 'threads': 1, 'what': nm})
                     if nm in ('cut-to-boundary', 'appended-message'):
                         steps.append({'op': 'open', 'threads': 1, 'what': nm + ', opened again'})
+                if variant == 1:
+                    # no index file, save_index=False: nothing may be written; then a normal open; then two readers on the fresh index
+                    steps += [{'op': 'data', 'hex': d.hex()}, {'op': 'p1i', 'hex': None},
+                              {'op': 'open', 'threads': 1, 'opts': {'save_index': False}, 'what': 'open with save_index=False, no index file'},
+                              {'op': 'open2', 'threads': None, 'what': 'two readers alive at once, no index file'},
+                              {'op': 'open', 'threads': 1, 'opts': {'save_index': False}, 'what': 'open with save_index=False next to a saved index'}]
                 hist.append(('log %d, index cut at %d, order %d' % (li, k, variant), NAMES[(li + k) % len(NAMES)], steps, d))
     # byte-limited opens on multi-block logs
     for bi in range(3 if ctx.thorough else 1):
@@ -355,11 +384,13 @@ def in_process_histories(ctx, model, g, logs, datas, frames0, fulls):
         for N in limits[1:4]:
             steps = [{'op': 'data', 'hex': big.hex()}, {'op': 'p1i', 'hex': None},
                      {'op': 'open', 'threads': 1, 'what': 'unlimited first open'},
+                     {'op': 'open', 'threads': 1, 'max_bytes': N, 'what': 'limited open through the complete index'},
                      {'op': 'open', 'threads': 1, 'max_bytes': N, 'ignore': True, 'what': 'limited open with ignore_index'},
                      {'op': 'open', 'threads': 1, 'what': 'unlimited open after limited ignore_index open'}]
             hist.append(('multi-block log %d, unlimited then max_bytes=%d with ignore_index' % (bi, N), 'big.raw', steps, big))
     recs = [{'id': str(i), 'name': h[1], 'steps': [{k: v for k, v in st.items() if k != 'what'} for st in h[2]]} for i, h in enumerate(hist)]
     impl = run_impl(ctx, 'hist', recs)
+    ctx.log('in-process histories: IMPL done')
     # distinct data files -> SPEC frames and P1 tables
     dset = []
     for h in hist:
@@ -370,6 +401,12 @@ def in_process_histories(ctx, model, g, logs, datas, frames0, fulls):
                     dset.append(b)
     tabs = p1_tables(ctx, model, dset)
     spec_fr = {b: frames_of(l) for b, l in zip(dset, vf.run_parallel(model, ['F ' + c18.hx(b) for b in dset]))}
+    spec_entries = {}     # records of the fresh index (without the EOF marker) per data file
+    for b, l in zip(dset, vf.run_parallel(model, ['O cur none %s 1 %s' % (c18.hx(b), tab(tabs[b])) for b in dset])):
+        sp = parse_o(l)['p1i'] or ''
+        fr_b = spec_fr[b]
+        marker = bool(fr_b) and struct.unpack_from('<H', b, fr_b[-1][0] + 10)[0] != 0
+        spec_entries[b] = sp[:-28] if marker else sp
     lines, meta = [], []
     for i, h in enumerate(hist):
         r = impl[str(i)]
@@ -388,10 +425,22 @@ def in_process_histories(ctx, model, g, logs, datas, frames0, fulls):
                 lines.append('O cur %s %s %d %s%s' % ('none' if bp is None else (bp or '-'), c18.hx(cur), 1 if st.get('ignore') else 0, tab(tabs[cur]),
                                                        '' if st.get('max_bytes') is None else ' %d' % st['max_bytes']))
                 applies = bp is None or st.get('ignore') or (base is not None and (cur.startswith(base) or base.startswith(cur)))
+                if st['op'] == 'p1i' or st['op'] == 'data':
+                    pass
                 meta.append((i, st, cur, o, applies))
                 if o.get('p1i') != bp:
                     base = cur if o.get('p1i') is not None else None
-    mo = [parse_o(l) for l in vf.run_parallel(model, lines)]
+    ctx.log('in-process histories: tables / SPEC done (%d model lines)' % len(lines))
+    # identical model questions are asked once; the slow ones (multi-block logs) sit together at the end, so the lines are
+    # dealt round-robin over the runner shards
+    uniq = list(dict.fromkeys(lines))
+    k = vf.NCPU
+    order = sorted(range(len(uniq)), key=lambda x: (x % k, x))
+    outl = vf.run_parallel(model, [uniq[x] for x in order])
+    ans = {uniq[x]: outl[pos] for pos, x in enumerate(order)}
+    back = [ans[l] for l in lines]
+    mo = [parse_o(l) for l in back]
+    ctx.log('in-process histories: MODEL done')
     seen = set()
     for (i, st, cur, o, applies), m in zip(meta, mo):
         h = hist[i]
@@ -404,7 +453,7 @@ def in_process_histories(ctx, model, g, logs, datas, frames0, fulls):
                     break
                 w2.append([a, n])
             want = w2
-        ctx.case(('hist', i, st['what'])); ctx.count('in-process-history:' + ('max_bytes' if N is not None else 'reopen'))
+        ctx.case(('hist', i, st['what'])); ctx.count('in-process-history:' + ('max_bytes' if N is not None else 'two-readers' if st['op'] == 'open2' else 'save_index=False' if (st.get('opts') or {}).get('save_index') is False else 'reopen'))
         case = {'history': h[0], 'file_name': h[1], 'step': st['what'], 'steps': [dict(x, hex=(x['hex'] if x.get('hex') is None or len(x['hex']) < 4000 else x['hex'][:64] + '...(%d bytes)' % (len(x['hex']) // 2))) if 'hex' in x else x for x in h[2]],
                 'impl': {k: (v if k != 'msgs' else v[:12]) for k, v in o.items() if k != 'tb'}, 'model': {k: (v if k != 'msgs' else v[:12]) for k, v in m.items()},
                 'spec_msgs': want[:12], 'spec_count': len(want), 'spec_applies': applies,
@@ -416,8 +465,17 @@ def in_process_histories(ctx, model, g, logs, datas, frames0, fulls):
         elif applies and (o['msgs'] != want or not o['bytes_ok']):
             bad = (dict(sig, obs='messages'), 'history [%s], %s: the reader returns %d messages, a fresh read of the current data %d%s'
                    % (h[0], st['what'], len(o['msgs']), len(want), '' if N is None else ' (within max_bytes=%d)' % N))
+        elif st['op'] == 'open2' and applies and o.get('msgs_b') != want:
+            bad = (dict(sig, obs='messages'), 'history [%s], %s: the second of two live readers returns %d messages, a fresh read %d' % (h[0], st['what'], len(o['msgs_b']), len(want)))
         elif not o['data_unchanged']:
             bad = (dict(sig, obs='data-modified'), 'opening the log modified the data file')
+        elif applies and (N is None or N >= len(cur)) and isinstance(o.get('index'), str) and not o['index'].startswith('unavailable') \
+                and o['index'] != spec_entries[cur]:
+            bad = (dict(sig, obs='get_index'), 'history [%s], %s: get_index() holds %d entries that are not the fresh index (%d entries) of the current data'
+                   % (h[0], st['what'], len(o['index']) // 28, len(spec_entries[cur]) // 28))
+        if not bad and (st.get('opts') or {}).get('save_index') is False and not m.get('crash'):
+            # nothing is saved: the model's message list stands, the index file is as before unless a stale one was deleted
+            m = dict(m, p1i=(None if m['load'] == 'rebuild:1' else o['before_p1i']))
         if bad:
             key = json.dumps(bad[0], sort_keys=True)
             if key not in seen:
